@@ -408,11 +408,13 @@ pub fn apply_step(script: &Script, log: &mut MultiRecordLog, step: &Step) -> (Va
                 .iter()
                 .map(|payload| payload_bytes(script, payload))
                 .collect();
-            let result = log.append_records(
-                &script.queues[*q],
-                *pos,
-                payloads.iter().map(|payload| &payload[..]),
-            );
+            // one-record batches go through the single-record entry point half of the time (decided
+            // by the payload seed, so that a script always takes the same path)
+            let result = if payloads.len() == 1 && batch[0].seed % 2 == 1 {
+                log.append_record(&script.queues[*q], *pos, &payloads[0][..])
+            } else {
+                log.append_records(&script.queues[*q], *pos, payloads.iter().map(|payload| &payload[..]))
+            };
             match result {
                 Ok(outcome) => res_json(
                     "ok",
